@@ -434,6 +434,8 @@ class ImportanceNestedSampler(BaseNestedSampler):
         self.plot_training_data = plot_training_data
         self.plotting_frequency = plotting_frequency
         self.replace_all = replace_all
+        if threshold_method not in ("entropy", "quantile"):
+            raise ValueError(f"Unknown threshold method: {threshold_method}")
         self.threshold_method = threshold_method
         self.threshold_kwargs = (
             {} if threshold_kwargs is None else threshold_kwargs
